@@ -253,4 +253,67 @@ Corollary limit_is_prefix d full n :
   fits d full -> impl_limit d full [] n = Good (pyslice None (Some n) full).
 Proof. intros Hfit. apply (chain_limit d full [] n _ Hfit eq_refl I). Qed.
 
+(* ---- the constructor argument limit=k ---- *)
+Lemma ctor_start_pos k : 0 <= k -> @ctor_start A (Some k) = Good (SWin (VInt 0) (VInt k)).
+Proof. intros Hk. unfold ctor_start, ctor_limit. cbn. reflexivity. Qed.
+
+Lemma rep_ctor full k : 0 <= k -> rep full (SWin (VInt 0) (VInt k)) (pyslice None (Some k) full).
+Proof.
+  intros Hk. exists 0, (Some k). repeat split; try lia. cbn [den].
+  rewrite drop_nonpos by lia. rewrite pyslice_none_n by lia. f_equal. lia.
+Qed.
+
+Theorem ctor_chain_list d full k chain :
+  fits d full -> 0 <= k ->
+  impl_list_from d full (Some k) chain = Good (spec_list (pyslice None (Some k) full) chain).
+Proof.
+  intros Hfit Hk. unfold impl_list_from. rewrite ctor_start_pos by exact Hk. cbn [obind].
+  destruct (run_chain_rep d full chain _ _ Hfit (rep_ctor full k Hk)) as (x' & Hrun & Hrep).
+  rewrite Hrun. cbn [obind]. now apply materialise_rep.
+Qed.
+
+Theorem ctor_chain_index d full k chain i :
+  fits d full -> 0 <= k ->
+  impl_index_from d full (Some k) chain i = spec_index (pyslice None (Some k) full) chain i.
+Proof.
+  intros Hfit Hk. unfold impl_index_from, spec_index. rewrite ctor_start_pos by exact Hk. cbn [obind].
+  destruct (run_chain_rep d full chain _ _ Hfit (rep_ctor full k Hk)) as (x' & Hrun & Hrep).
+  rewrite Hrun. cbn [obind]. now apply step_index_rep.
+Qed.
+
+Lemma limit_at_rep d full x l n :
+  fits d full -> rep full x l -> still_select x ->
+  limit_at d full x n = Good (pyslice None (Some n) l).
+Proof.
+  intros Hfit Hrep Hsel. destruct x as [sv ev|]; [|contradiction].
+  destruct (step_slice_rep d full (SWin sv ev) _ None (Some n) Hfit Hrep) as (y & Hstep & Hrepy).
+  cbn [step_slice opt_pv] in Hstep. unfold limit_at, limit_call.
+  destruct (getitem_slice sv ev VNone (VInt n)) as [r|err]; cbn [lift obind] in *; [|discriminate].
+  destruct r; cbn [obind] in *; try discriminate.
+  - inversion Hstep; subst y. apply (materialise_rep d full _ _ Hfit Hrepy).
+  - inversion Hstep; subst y. apply (materialise_rep d full _ _ Hfit Hrepy).
+  - destruct (pv_opt a); cbn [lift obind] in *; [|discriminate].
+    destruct (pv_opt b); cbn [lift obind] in *; [|discriminate].
+    destruct (run_select d full sv ev); cbn [obind] in *; try discriminate.
+    inversion Hstep; subst y. cbn [rep] in Hrepy. now rewrite Hrepy.
+Qed.
+
+Theorem ctor_chain_limit d full k chain n x :
+  fits d full -> 0 <= k ->
+  run_chain d full (SWin (VInt 0) (VInt k)) chain = Good x -> still_select x ->
+  impl_limit_from d full (Some k) chain n = Good (pyslice None (Some n) (spec_list (pyslice None (Some k) full) chain)).
+Proof.
+  intros Hfit Hk Hrun Hsel. unfold impl_limit_from. rewrite ctor_start_pos by exact Hk. cbn [obind]. rewrite Hrun. cbn [obind].
+  destruct (run_chain_rep d full chain _ _ Hfit (rep_ctor full k Hk)) as (x' & Hrun' & Hrep).
+  rewrite Hrun in Hrun'. inversion Hrun'; subst x'. now apply limit_at_rep.
+Qed.
+
+(* without the argument (limit=None) the constructor sets no window: the _from functions are the plain ones *)
+Lemma from_none_list d full chain : impl_list_from d full None chain = impl_list d full chain.
+Proof. reflexivity. Qed.
+Lemma from_none_index d full chain i : impl_index_from d full None chain i = impl_index d full chain i.
+Proof. reflexivity. Qed.
+Lemma from_none_limit d full chain n : impl_limit_from d full None chain n = impl_limit d full chain n.
+Proof. reflexivity. Qed.
+
 End P.
